@@ -180,7 +180,7 @@ func injectOne(t *rapid.T, src []byte, o LayoutOpts, i int) ([]byte, string) {
 		out = append(out, src[off:]...)
 		return out
 	}
-	nk := 13
+	nk := 14
 	if o.NoLine {
 		nk = 3
 	}
@@ -222,6 +222,16 @@ func injectOne(t *rapid.T, src []byte, o LayoutOpts, i int) ([]byte, string) {
 			return ins(0, "// h"+tag+"\n\n"), "header-comment"
 		}
 		return ins(0, "//go:build linux\n\n"), "build-tag"
+	case 13:
+		// line directives change what FileSet.Position reports for everything behind them
+		if rapid.Bool().Draw(t, "inline") {
+			return ins(pickTok(), fmt.Sprintf("/*line f%s.go:%d*/", tag, 3+i)), "line-directive"
+		}
+		if len(lineEnds) == 0 {
+			return nil, ""
+		}
+		off := lineEnds[rapid.IntRange(0, len(lineEnds)-1).Draw(t, "line")]
+		return ins(off+1, fmt.Sprintf("//line f%s.go:%d\n", tag, 2+i)), "line-directive"
 	default:
 		if !o.Special {
 			return ins(pickTok(), "/*s"+tag+"*/"), "block-before"
